@@ -42,6 +42,10 @@ type c16Plan struct {
 	// udp-recv / router-recv: all datagrams are sent in one go (no window of 4): more frames are pending than any
 	// small queue inside the receiver holds
 	Burst bool `json:"burst,omitempty"`
+	// tcp-recv: the peer stalls once for StallMs after it has written StallAt octets of the stream (a slow link in the
+	// middle of a frame)
+	StallAt int `json:"stall_at,omitempty"`
+	StallMs int `json:"stall_ms,omitempty"`
 }
 
 const limit = 5 * time.Second
@@ -187,6 +191,7 @@ func c16RunInner(p c16Plan) *common.Fail {
 		go func() {
 			rest := stream
 			k := 0
+			written, stalled := 0, false
 			for len(rest) > 0 {
 				n := len(rest)
 				if len(p.Cuts) > 0 {
@@ -196,11 +201,19 @@ func c16RunInner(p c16Plan) *common.Fail {
 						n = c
 					}
 				}
+				if p.StallMs > 0 && !stalled && written < p.StallAt && written+n > p.StallAt {
+					n = p.StallAt - written
+				}
 				if _, err := pc.Write(rest[:n]); err != nil {
 					writeErr <- err
 					return
 				}
 				rest = rest[n:]
+				written += n
+				if p.StallMs > 0 && !stalled && written == p.StallAt && len(rest) > 0 {
+					stalled = true
+					time.Sleep(time.Duration(p.StallMs) * time.Millisecond)
+				}
 				if p.PauseUs > 0 && len(rest) > 0 {
 					time.Sleep(time.Duration(p.PauseUs) * time.Microsecond)
 				}
@@ -208,7 +221,7 @@ func c16RunInner(p c16Plan) *common.Fail {
 			writeErr <- nil
 		}()
 		time.Sleep(time.Duration(p.ReaderPauseMs) * time.Millisecond)
-		got, closedEarly := collect(sock.Inbound(), len(want), limit)
+		got, closedEarly := collect(sock.Inbound(), len(want), limit+time.Duration(p.StallMs)*time.Millisecond)
 		<-writeErr
 		if closedEarly {
 			pc.Close()
@@ -955,7 +968,7 @@ func TestC16Slow(t *testing.T) {
 		pauses = []int{1100, 1700, 2600, 5500, 11000}
 	}
 	common.Drive(t, rec, func(rt *rapid.T) c16Plan {
-		p := c16Plan{Mode: rapid.SampledFrom([]string{"tcp-recv", "udp-recv", "router-recv"}).Draw(rt, "mode")}
+		p := c16Plan{Mode: rapid.SampledFrom([]string{"tcp-recv", "tcp-recv", "udp-recv", "router-recv"}).Draw(rt, "mode")}
 		p.Frames = genFrames(rt, rapid.IntRange(2, 12).Draw(rt, "frames"), 600)
 		p.ReaderPauseMs = rapid.SampledFrom(pauses).Draw(rt, "reader-pause")
 		if p.Mode == "tcp-recv" {
@@ -964,8 +977,29 @@ func TestC16Slow(t *testing.T) {
 				p.Cuts = []int{rapid.IntRange(1, 40).Draw(rt, "seg")}
 				p.PauseUs = 50
 			}
+			if rapid.IntRange(0, 2).Draw(rt, "slow-peer") > 0 {
+				// the link stalls in the middle of a frame instead of the reader staying away: mostly behind the header
+				// of a frame (the receiver has peeked the header and waits for the rest), sometimes anywhere
+				j := rapid.IntRange(0, len(p.Frames)-1).Draw(rt, "stall-frame")
+				off := 0
+				for _, f := range p.Frames[:j] {
+					off += len(f) / 2
+				}
+				n := len(p.Frames[j]) / 2
+				switch {
+				case n > 7 && rapid.IntRange(0, 3).Draw(rt, "stall-where") > 0:
+					p.StallAt = off + rapid.IntRange(6, n-1).Draw(rt, "stall-in-body")
+				default:
+					p.StallAt = off + rapid.IntRange(1, n-1).Draw(rt, "stall-anywhere")
+				}
+				p.StallMs, p.ReaderPauseMs = p.ReaderPauseMs, 0
+			}
 		}
-		rec.Class(fmt.Sprintf("%s reader away %d ms", p.Mode, p.ReaderPauseMs))
+		if p.StallMs > 0 {
+			rec.Class(fmt.Sprintf("%s peer stalls %d ms inside the stream", p.Mode, p.StallMs))
+		} else {
+			rec.Class(fmt.Sprintf("%s reader away %d ms", p.Mode, p.ReaderPauseMs))
+		}
 		rec.NonTrivial(common.HashJSON(p))
 		rec.Sample("slow-reader", p)
 		return p
